@@ -42,7 +42,7 @@ var extraRules = map[string][]string{
 	"no-unsafe":                    {"C01", "C13"},
 	"no-lazy-meta-call":            {"C13"},
 	"no-content-length-sizing":     {"C09"},
-	"codec-default-options":        {"C01"},
+	"codec-default-options":        {"C01", "C07"},
 	"close-arg-is-outcome":         {"C02", "C15", "C19"},
 	"trailers-after-drain":         {"C02", "C03", "C04", "C11"},
 	"request-started-on-all-exits": {"C14", "C15"},
